@@ -1735,3 +1735,25 @@ impl proto::Peer for Peer {
         Ok(response)
     }
 }
+
+#[cfg(feature = "h2_verif")]
+impl<B: Buf> SendRequest<B> {
+    /// Read-only statistics snapshot of the connection's stream state, as a
+    /// JSON document (verification harness only).
+    pub fn verif_snapshot(&self) -> String {
+        self.inner.verif_snapshot()
+    }
+}
+
+#[cfg(feature = "h2_verif")]
+impl<T, B> Connection<T, B>
+where
+    T: AsyncRead + AsyncWrite + Unpin,
+    B: Buf,
+{
+    /// Read-only statistics snapshot of the connection's stream state, as a
+    /// JSON document (verification harness only).
+    pub fn verif_snapshot(&self) -> String {
+        self.inner.verif_snapshot()
+    }
+}
